@@ -18,7 +18,7 @@ from ..runner import main
 from .. import syscheck as sc
 
 CLAUSES = {"AsExpected", "NoArtefacts", "Productive", "Converged", "ReachesQuiet", "NoEscape", "StaysQuiet", "NoLoss"}
-GAPS = ["I", "IS", "X", "IX", "ISX", "R", "Rrm", "Rrej"]
+GAPS = ["I", "IS", "X", "IX", "ISX", "R", "Rrm", "Rrej", "PX"]
 
 
 def has_restart(c):
@@ -71,7 +71,7 @@ def run(ctx):
         ctx.extra.setdefault("family_sizes", {})[name] = len(cases)
         cases, full = sc.slice_cases(cases, limit, ctx.seed * 122949829 + nops)
         exhaustive = exhaustive and full
-        if name in ("rs_one2", "rs_oneR2"):
+        if name in ("rs_one2", "rs_oneR2", "rs_two2"):
             # the same behaviours on accounts that already held identical trees when the engine first started: neither provider
             # reports anything in the first session, the cursors a later session resumes from are the ones adopted at first start
             pre, _ = sc.slice_cases(cases, 300 if quick else 3000, key=name + "_pre")
